@@ -1,11 +1,11 @@
 /-
 Termination of the outer loop of `Louvain.fit` (`while not stop:` — optimise, aggregate, repeat) in exact arithmetic
-(property C17), on the model of C06 (`louvainLoop`).
+(property C17), on the model of C06 (`louvainLoopCapped`: the chain that mirrors the compiled kernels).
 
 A level that does not stop the loop has `increase > tol_aggregation ≥ 0`, so at least one node left its singleton:
 its label is then carried by no node at all (labels are only ever copied from a neighbour), the number of distinct
 labels is at most `n - 1`, and the aggregated graph has strictly fewer nodes.  The model runs the loop with
-`n + 1` units of fuel: they suffice.
+`n + 1` units of fuel: they suffice.  (`pow_self_mono` is kept for users of the uncapped kernel loop.)
 -/
 import SkNet.Lemmas.TerminateLouvain
 import SkNet.Lemmas.ModularityLeiden
@@ -90,74 +90,6 @@ theorem pow_self_mono {a b : Nat} (h : a ≤ b) : a ^ a ≤ b ^ b := by
     exact Nat.le_refl _
   · calc a ^ a ≤ b ^ a := Nat.pow_le_pow_left h a
       _ ≤ b ^ b := Nat.pow_le_pow_right (by omega) h
-
-/-- **The outer loop of `Louvain.fit` terminates** (exact arithmetic): for tolerances `tol_optimization ≥ 0`,
-    `tol_aggregation ≥ 0`, any `n_aggregations`, with enough fuel for the kernel at the first level
-    (`n^n + 1` passes), the `n + 1` rounds the model allows are never exhausted: each round that does not stop
-    strictly decreases the number of nodes. -/
-theorem louvainLoop_terminates (res tolOpt tolAgg : Rat) (htolOpt : 0 ≤ tolOpt) (htolAgg : 0 ≤ tolAgg) (nAgg : Int)
-    (coreFuel : Nat) :
-    ∀ (fuel count : Nat) (lv : Level) (memb : List Nat) (incs : List Rat), LevelOK lv →
-      lv.n ^ lv.n + 1 ≤ coreFuel → lv.n + 1 ≤ fuel →
-      louvainLoop res tolOpt tolAgg nAgg coreFuel fuel count lv memb incs ≠ none := by
-  intro fuel
-  induction fuel with
-  | zero => intro count lv memb incs _ _ hf; omega
-  | succ f ih =>
-    intro count lv memb incs hlv hcf hf
-    simp only [louvainLoop]
-    have hterm := optimizeCore_terminates lv.graph hlv.graphOK res tolOpt htolOpt lv.n _
-      (coreInv_singletons lv hlv) coreFuel hcf
-    cases hopt : louvainOptimize lv res tolOpt coreFuel (arange lv.n) with
-    | none => exact absurd hopt hterm
-    | some r =>
-      obtain ⟨labels1, inc⟩ := r
-      simp only
-      split
-      · simp
-      · rename_i hstop
-        simp only [Bool.or_eq_true, decide_eq_true_eq, not_or] at hstop
-        obtain ⟨⟨-, hinc⟩, -⟩ := hstop
-        obtain ⟨s1, s2, s3, s4, s5⟩ := optimizeCore_spec lv.graph hlv.graphOK res tolOpt lv.n coreFuel _
-          (coreInv_singletons lv hlv) labels1 inc hopt
-        obtain ⟨g1, g2, g3, g4, -⟩ := louvain_level lv hlv res tolOpt coreFuel labels1 inc hopt
-        have hpos : 0 < inc := lt_of_le_of_lt htolAgg (not_le.mp hinc)
-        have hne : labels1 ≠ arange lv.n := by
-          intro e
-          rw [e] at s1
-          have : inc = 0 := by rw [s1]; ring
-          linarith
-        obtain ⟨hlen, hcase⟩ := joinSteps_missing hlv.graphOK s3
-        rcases hcase with e | ⟨x, hx, hxn⟩
-        · exact absurd e hne
-        · have hlt : ∀ y ∈ labels1, y < lv.n := by
-            intro y hy
-            obtain ⟨k, hk, rfl⟩ := List.getElem_of_mem hy
-            have := s5 k (by rw [← s4]; exact hk)
-            simpa [labOf, List.getD_eq_getElem?_getD, List.getElem?_eq_getElem hk] using this
-          have hsmall : (aggregate (uniqueInverse labels1) lv).n < lv.n :=
-            nLabels_uniqueInverse_lt labels1 lv.n hlt x hx hxn
-          refine ih _ _ _ _ g4 ?_ (by omega)
-          have := pow_self_mono (Nat.le_of_lt hsmall)
-          omega
-
-/-- **`Louvain.fit` terminates** (exact arithmetic, `shuffle_nodes = False`): whenever the pre-processing accepts the
-    input, with non-negative tolerances the model never runs out of fuel — the kernel within `n^n + 1` passes at
-    every level, the outer loop within `n + 1` rounds. -/
-theorem louvainFit_terminates (kind : Kind) (res tolOpt tolAgg : Rat) (htolOpt : 0 ≤ tolOpt) (htolAgg : 0 ≤ tolAgg)
-    (nAgg : Int) (nRow nCol nnz : Nat) (B : Nat → Nat → Rat) (fb : Bool) (coreFuel : Nat) (lv : Level)
-    (hpre : preProcess kind nRow nCol nnz B fb = .ok lv) (hcf : lv.n ^ lv.n + 1 ≤ coreFuel) :
-    louvainFit kind res tolOpt tolAgg nAgg nRow nCol nnz B fb coreFuel ≠ .ok none := by
-  obtain ⟨w, _, hlv⟩ := preProcess_ok kind nRow nCol nnz B fb lv hpre
-  have hok : LevelOK lv := by rw [hlv]; exact symLevel_levelOK _ _ _ _
-  unfold louvainFit
-  rw [hpre]
-  simp only
-  intro h
-  have h' : louvainLoop res tolOpt tolAgg nAgg coreFuel (lv.n + 1) 0 lv (arange lv.n) [] = none := by
-    injection h
-  exact louvainLoop_terminates res tolOpt tolAgg htolOpt htolAgg nAgg coreFuel (lv.n + 1) 0 lv (arange lv.n) []
-    hok hcf (Nat.le_refl _) h'
 
 /-! ### the loop as compiled now (the kernel bounds its passes: `optimizeCoreCapped`, /repo 244a467f) -/
 
